@@ -60,6 +60,10 @@ type FieldT struct {
 	Type    *Type
 	Default V // evaluated declared default, nil if none
 	HasDef  bool
+	// CtorDefault is what a freshly constructed object holds in the field (the
+	// completed literal); it stays as built when a check replaces Default by
+	// another form of the same default (e.g. the form it has after a wire trip).
+	CtorDefault V
 }
 
 func (s *StructT) Field(id int32) *FieldT {
@@ -142,6 +146,7 @@ func Build(p *idl.Program) *Schema {
 	// default (the IDL's rule) or, without one, what a constructed object holds
 	for _, pd := range s.pending {
 		pd.f.Default = Complete(pd.f.Type, pd.f.Default, 0)
+		pd.f.CtorDefault = pd.f.Default
 	}
 	s.pending = nil
 	s.built = true
@@ -566,7 +571,8 @@ func Normalise(t *Type, v V) V {
 					}
 				}
 			}
-			if f.Req == idl.ReqOptional && f.HasDef && (Equal(nv, Normalise(f.Type, f.Default)) || Equal(nv, Normalise(f.Type, WireForm(f.Type, f.Default, 0)))) {
+			if f.Req == idl.ReqOptional && f.HasDef && (Equal(nv, Normalise(f.Type, f.Default)) || Equal(nv, Normalise(f.Type, WireForm(f.Type, f.Default, 0))) ||
+				(f.CtorDefault != nil && Equal(nv, Normalise(f.Type, f.CtorDefault)))) {
 				continue
 			}
 			o.F[f.ID] = nv
@@ -661,4 +667,77 @@ func Readable(t *Type, v V) bool {
 
 func isScalar(t *Type) bool {
 	return t.Kind <= Enum
+}
+
+// FirstDiff names the first place where two (normalised) values differ, or "".
+func FirstDiff(a, b V) string {
+	return firstDiff(a, b, "$")
+}
+
+func firstDiff(a, b V, path string) string {
+	if Equal(a, b) {
+		return ""
+	}
+	switch x := a.(type) {
+	case *StructV:
+		y, ok := b.(*StructV)
+		if !ok {
+			break
+		}
+		for _, id := range x.IDs() {
+			if _, ok := y.F[id]; !ok {
+				return fmt.Sprintf("%s.%d: present on the first side only: %s", path, id, Show(x.F[id]))
+			}
+			if d := firstDiff(x.F[id], y.F[id], fmt.Sprintf("%s.%d", path, id)); d != "" {
+				return d
+			}
+		}
+		for _, id := range y.IDs() {
+			if _, ok := x.F[id]; !ok {
+				return fmt.Sprintf("%s.%d: present on the second side only: %s", path, id, Show(y.F[id]))
+			}
+		}
+	case *ListV:
+		y, ok := b.(*ListV)
+		if !ok {
+			break
+		}
+		if len(x.E) != len(y.E) {
+			return fmt.Sprintf("%s: %d elements vs %d", path, len(x.E), len(y.E))
+		}
+		for i := range x.E {
+			if d := firstDiff(x.E[i], y.E[i], fmt.Sprintf("%s[%d]", path, i)); d != "" {
+				return d
+			}
+		}
+	case *MapV:
+		y, ok := b.(*MapV)
+		if !ok {
+			break
+		}
+		if len(x.K) != len(y.K) {
+			return fmt.Sprintf("%s: %d entries vs %d", path, len(x.K), len(y.K))
+		}
+		for i := range x.K {
+			found := false
+			for j := range y.K {
+				if Equal(x.K[i], y.K[j]) {
+					found = true
+					if d := firstDiff(x.E[i], y.E[j], fmt.Sprintf("%s{%s}", path, Show(x.K[i]))); d != "" {
+						return d
+					}
+				}
+			}
+			if !found {
+				// the key itself differs: show the closest explanation
+				for j := range y.K {
+					if d := firstDiff(x.K[i], y.K[j], fmt.Sprintf("%s{key#%d~#%d}", path, i, j)); d != "" && len(y.K) <= 3 {
+						return "no equal key on the second side; compared with one of its keys: " + d
+					}
+				}
+				return fmt.Sprintf("%s: key %s has no equal on the second side", path, Show(x.K[i]))
+			}
+		}
+	}
+	return fmt.Sprintf("%s: %s vs %s", path, Show(a), Show(b))
 }
